@@ -77,13 +77,13 @@ class EEMSRead(Command):
         if "MissingValue" in kwargs:
             missing_value = (
                 int(kwargs["MissingValue"])
-                if numpy.issubdtype(result.mask.dtype, int)
+                if numpy.issubdtype(result.dtype, numpy.integer)
                 else float(kwargs["MissingValue"])
             )
 
-            self.result.mask = numpy.where(result.data == missing_value, True, result.mask or False)
+            result.mask = numpy.ma.getmaskarray(result) | (result.data == missing_value)
 
-        result.data[result.mask] = result.fill_value
+        result.data[numpy.ma.getmaskarray(result)] = result.fill_value
 
         return result
 
